@@ -637,6 +637,25 @@ def execute(sc):
                 if got_names != ["lvl%d" % i_ for i_ in range(len(cfgs))] or got_args != [a[0] for a in model.all_args()] or got_opts != want_opts:
                     res.violate("command_tree", "stacking", "sub-command of a command tree without application: names %r arguments %r options %r; levels imply %r / %r / %r" % (
                         got_names, got_args, got_opts, ["lvl%d" % i_ for i_ in range(len(cfgs))], [a[0] for a in model.all_args()], want_opts))
+                # the format of a command is finished when the command is: a declaration made on the
+                # parent's config afterwards (legal there) does not reach it, whenever it is first looked at
+                cfgs2 = []
+                for i_, l in enumerate(levels):
+                    c_ = CommandConfig("lvl%d" % i_)
+                    for o in l.opts:
+                        c_.add_option(o[0], o[1], o[2])
+                    for a in l.args:
+                        c_.add_argument(a[0], a[1])
+                    if cfgs2:
+                        cfgs2[-1].add_sub_command_config(c_)
+                    cfgs2.append(c_)
+                cmd2 = Command(cfgs2[0])
+                for i_ in range(1, len(cfgs2)):
+                    cmd2 = cmd2.get_sub_command("lvl%d" % i_)
+                cfgs2[0].add_option("declared-later")
+                late = sorted(o.long_name for o in cmd2.args_format.get_options().values())
+                if late != want_opts:
+                    res.violate("command_tree", "finished_format_changed", "options of a sub-command %r after its parent's config got one more option (levels imply %r)" % (late, want_opts))
             except Exception as e:
                 res.violate("command_tree", "rejects_valid", "command tree from accepted elements raised %s: %s" % (type(e).__name__, e))
             # ... and an element the rules reject on top of the parent levels is rejected there too
@@ -665,10 +684,7 @@ def execute(sc):
                                 tops[-1].add_option(op[1], op[2], op[3])
                             else:
                                 tops[-1].add_argument(op[1], op[2])
-                            cmd = Command(tops[0])
-                            for i_ in range(1, len(tops)):
-                                cmd = cmd.get_sub_command("lvl%d" % i_)
-                            cmd.args_format
+                            cmd = Command(tops[0])   # registration: this is where the collision must be refused
                             res.violate("command_tree", "accepts_invalid", "a sub-command of a command tree without application accepted %r although it collides with its parents (levels %r)" % (op, [l.snap() for l in model.levels]))
                         except Exception:
                             res.probe("command_tree_rejects")
